@@ -77,6 +77,8 @@ def quick_cases():
     cs.append(_case('hcp_basal_edge', mn=('y', 'x'), gen='monopole', mults=(8, 20, 1), center=1))
     cs.append(_case('hcp_pyramidal_mixed', gen='monopole', mults=(1, 8, 16), boundary='cylinder', width=6.0))          # the tilted faces are the nearest ones
     cs.append(_case('hcp_pyramidal_mixed', gen='monopole', mults=(1, 16, 8), boundary='box', width=5.0, history='repeat'))
+    cs.append(_case('hcp_pyramidal_mixed', mn=('z', 'y'), gen='monopole', mults=(1, 12, 12)))     # an assignment the rotated cell cannot hold: refused (was silently misoriented)
+    cs.append(_case('hcp_pyramidal_mixed', mn=('x', 'y'), gen='periodicarray', mults=(16, 8, 1)))
     cs.append(_case('fcc_edge', mn=('x', 'y'), gen='monopole', mults=(8, 12, 1), history='repeat'))
     cs.append(_case('bcc_screw', mn=('x', 'y'), gen='periodicarray', mults=(10, 8, 2), history='repeat'))
     cs.append(_case('fcc_edge_conv', gen='monopole', mults=(1, 16, 8)))
@@ -169,6 +171,8 @@ def build(am, case):
     except ValueError as e:
         if 'isotropic' in str(e) or 'Stroh' in str(e):
             return ucell, C, None          # the elastic solver refuses this orientation (degenerate Stroh problem): C12's documented refusal
+        if 'cannot have a component along n' in str(e):
+            return ucell, C, None          # the m, n assignment would need a box whose out-of-plane vector tilts in a way a LAMMPS-compatible box cannot: refused
         raise
     return ucell, C, d
 
@@ -373,8 +377,15 @@ def check_case(am, case):
             if not np.allclose(disl.box.vects[i], nv[i], atol=1e-8):
                 msgs.append('cell vector %d is %r, expected %r (in-plane vector tilted by b/2)' % (i, disl.box.vects[i].round(5).tolist(), nv[i].round(5).tolist()))
         r0 = min_distance(rc.supersize(2, 2, 2).atoms.pos, 2 * V, (True, True, True))
+        # overlap "across the two in-plane periodic directions" is about atoms duplicated at the periodic boundary of the motion direction.  Away from the slip plane the
+        # Volterra field itself is not compatible with that boundary: the displacements of the two images of a boundary site at height y differ from b/2 by
+        # |b| (1/2 - arctan(Lx / (2|y|)) / pi)  (zero at the slip plane, |b|/4 at the corners of a square cell) -- the finite-width tail the property sets aside.  The
+        # threshold is lowered by that bound at the top of the cell, so that only atoms brought together beyond it (duplicates that were not removed) count.
+        Lx = abs(disl.box.vects[mi].dot(m))
+        ytop = 0.5 * abs(BV[ci].dot(n))
+        tail = np.linalg.norm(b) * (0.5 - np.arctan(Lx / (2 * ytop)) / np.pi)
         md = min_distance(disl.atoms.pos, disl.box.vects, pbc_want)
-        if md < 0.5 * r0:
+        if md < 0.5 * r0 - tail:
             msgs.append('overlapping atoms: smallest distance %.4f (perfect crystal %.4f)' % (md, r0))
         # old_id -> reference atom
         full = rc.supersize(*ranges)
